@@ -366,6 +366,26 @@ fn fam_lzma2(ctx: &CaseCtx, cov: &mut Cov) -> CaseOut {
         out.nontrivial.push(case_hash(&[&input, &[raw as u8], rk.name().as_bytes()]));
         judge_exact(&mut out, cov, if raw { 4 } else { 3 }, rk, &c.verdict, c.consumed, want, input.len(), &sink.bytes(), &w.output, &input);
     }
+    // the same raw decoder object used for a SECOND member (R20-C11: a `finished` flag that only
+    // reset() cleared made the second call return Ok without reading anything): with and
+    // without reset() in between; only when the member re-establishes the dictionary itself
+    if w.chunks.first().map(|c| c.control == 1 || c.control >= 0xE0).unwrap_or(false) && case_hash(&[&input]) % 2 == 0 {
+        let mut d = Lzma2Decoder::new();
+        let first = sut::raw_lzma2_decompress(&mut d, &w.bytes, ReaderKind::Slice, &SharedSink::counting_only(), &sut::new_obs(u64::MAX));
+        if first.verdict.is_ok() {
+            let with_reset = rng.chance(1, 3);
+            if with_reset {
+                let _ = sut::guarded(|| d.reset());
+            }
+            let rk = ReaderKind::random(&mut rng);
+            let sink = SharedSink::varied(rng.next(), w.output.len());
+            let obs = sut::new_obs(u64::MAX);
+            let c = sut::raw_lzma2_decompress(&mut d, &input, rk, &sink, &obs);
+            out.evals += 1;
+            cov.name(if with_reset { "lzma2_raw_decoder_second_member_after_reset()" } else { "lzma2_raw_decoder_second_member_without_reset" }, 1);
+            judge_exact(&mut out, cov, 4, rk, &c.verdict, c.consumed, want, input.len(), &sink.bytes(), &w.output, &input);
+        }
+    }
     // embedded in a container: an .xz block with the size fields absent relies on
     // exactly this (the block padding / check follow immediately)
     let check = *rng.pick(&[0u8, 1, 4]);
